@@ -75,7 +75,7 @@ def renderText (w tok : Bytes) (mark : Option Nat) : String :=
 def threadsText (ts : List Nat) : String := ",".intercalate (ts.map toString)
 
 def deliveryText (w tok : Bytes) (mark : Option Nat) (threads : List Nat) : String :=
-  "d=" ++ renderText w tok mark ++ "@" ++ threadsText threads
+  "d=" ++ renderText w tok mark ++ "@" ++ threadsText threads ++ "!1"
 
 def parseThreads (s : String) : Option (List Nat) :=
   if s.isEmpty then some [] else (s.splitOn ",").mapM String.toNat?
@@ -95,7 +95,7 @@ def parseDelivery (s : String) : Option (Delivery × List Nat) :=
   if !s.startsWith "d=" then none else
   match ((s.drop 2).toString).splitOn "@" with
   | [body, ths] =>
-    match body.splitOn "/", parseThreads ths with
+    match body.splitOn "/", parseThreads ((ths.splitOn "!").headD "") with
     | [w, t, m, _name], some ths =>
       match bytesOfHex w, (if t == "-" then some [] else bytesOfHex t), optNatText m with
       | some w, some t, some m => some (⟨w, t, m⟩, ths)
@@ -166,10 +166,15 @@ def rxCommon (d : DSt) (crash : List SpecFail) (got : String) (id : String) (inf
       if newImpl.all nameAgrees then [] else
         [⟨"delivered-bytes-stable", "name-not-of-packet",
           s!"'{descr}': the name handed to the forwarder with the packet (pkt.Name of the decoded L3) is not the name inside the delivered bytes"⟩]
+    let detached : List SpecFail :=
+      if (toks.filter (·.startsWith "d=")).any (·.endsWith "!0") then
+        [⟨"delivers-original", "decoded-view-detached",
+          s!"'{descr}': the decoded packet handed to the forwarder (pkt.L3, through which it edits e.g. the HopLimit) does not live in the memory of pkt.Raw, the bytes that are sent on"⟩]
+      else []
     let info' := { info with handed := handed' }
     { st := { d with store := r.1, msgs := info' :: d.msgs.filter (·.id ≠ id), judgeRx := d.judgeRx && !dup,
                      heldModel := heldModel', heldImpl := heldImpl' },
-      expected := expected, spec := crash ++ fails ++ stable ++ nameBad, cov := cov ++ (if dup then ["rx-duplicate"] else []) }
+      expected := expected, spec := crash ++ fails ++ stable ++ nameBad ++ detached, cov := cov ++ (if dup then ["rx-duplicate"] else []) }
 
 
 def stepC10 (d : DSt) (op : String) (got : String) : StepResult DSt :=
